@@ -875,6 +875,9 @@ def _check_methods(which, case, boo, S, sysd, psi, rng):
     psi = np.asarray(boo.ParticlePhi)
     withfile = case.endswith("file") and not case.endswith("nofile")
     tmp = tempfile.mkdtemp(prefix="pyvc-c10m-")
+    import atexit
+    import shutil
+    atexit.register(shutil.rmtree, tmp, True)       # scratch directory of this replay process: removed when the process ends
     if which == "time_average":
         dt = float(rng.choice([0.002, 0.01]))
         w = int(rng.integers(1, T + 1))
